@@ -469,7 +469,8 @@ def run_check(check_id, tier, seed, workers=None, max_report=None, quiet=False):
                 per_file.setdefault(fn, [0, 0])[0] += 1
         ev['coverage']['dfols_lines_reached'] = dict(measure='distinct source lines of /repo/dfols/*.py (tests excluded) executed at least once by the simulated runs of this check (sys.monitoring LINE events)',
                                                       reached=sum(v[0] for v in per_file.values()), executable=sum(v[1] for v in per_file.values()),
-                                                      per_file=dict((k, '%d/%d' % (v[0], v[1])) for k, v in sorted(per_file.items())))
+                                                      per_file=dict((k, '%d/%d' % (v[0], v[1])) for k, v in sorted(per_file.items())),
+                                                      unreached_line_ranges=_ranges(allines - lines_hit))
     except Exception as e:
         ev['coverage']['dfols_lines_reached'] = dict(error=repr(e))
     if spec.get('evidence_extra'):
@@ -488,6 +489,27 @@ def run_check(check_id, tier, seed, workers=None, max_report=None, quiet=False):
         if exit_code == 0:
             exit_code = 2
     return exit_code, ev
+
+
+def _ranges(pairs):
+    """{file: '12-15,20,31-40'} for a set of (file, line)."""
+    by = {}
+    for fn, ln in pairs:
+        by.setdefault(fn, []).append(ln)
+    out = {}
+    for fn, lns in sorted(by.items()):
+        lns = sorted(set(lns))
+        parts = []
+        start = prev = lns[0]
+        for ln in lns[1:] + [None]:
+            if ln is not None and ln <= prev + 2:      # tolerate blank / comment lines between
+                prev = ln
+                continue
+            parts.append('%d-%d' % (start, prev) if prev > start else '%d' % start)
+            if ln is not None:
+                start = prev = ln
+        out[fn] = ','.join(parts)
+    return out
 
 
 def _jsonable(o):
